@@ -257,7 +257,9 @@ def spec_to_code_ann(ctx, monitor, cfg_expr, inputs_expr, variant, insts, ann0, 
     tc = TIMINGS[variant]
     cfg = annenv.mon_cfg(tc, insts, ann0)
     cfg["dsts"] = ["mc", "a1", "a2", "a3", "a4", "a5"]
-    consts = {"Inputs": inputs_expr, "Match": "<<>>", "Cfg": cfg_expr, "Sw": "AllOff", "MaxEv": max_ev, "MaxIdle": 3, "MaxPerPoll": 2}
+    # (Mode 1 configurations wrap session ids after 3 to stay finite; the real code wraps after 65535)
+    consts = {"Inputs": inputs_expr, "Match": "<<>>", "Cfg": "[(%s) EXCEPT !.maxId = 65535]" % cfg_expr, "Sw": "AllOff", "MaxEv": max_ev,
+              "MaxIdle": 3, "MaxPerPoll": 2}
 
     class Replay:
         hist = None
